@@ -423,8 +423,11 @@ def _g34(facts, rep):
         rep.ok('E23.G4-complex-pieces', inst, 'filter(q_deg(x) == j) over raw_gens(C_i)')
     elif piece is None or pred is None:
         rep.indet('E23.G4: gen_grid outside the recognised fragment (piece %s, predicate %s)' % (piece, pred))
-    else:
+    elif re.match(r'from_raw_gens\((cloned|copied)\(filter\(iter\(raw_gens\(index\(arg1, IDX\.[01]\)\)\), PRED\)\)\)$', piece) and \
+            re.match(r'(Eq|Ne|Le|Ge|Lt|Gt)\((q_deg|h_deg)\(ITEM\), IDX\.[01]\)$|(Eq|Ne|Le|Ge|Lt|Gt)\(IDX\.[01], (q_deg|h_deg)\(ITEM\)\)$', pred):
         rep.violation('E23.G4-complex-pieces', inst, 'the piece is %s with predicate %s' % (piece[:200], pred), where=gg.where())
+    else:
+        rep.indet('E23.G4: gen_grid outside the recognised fragment (piece %s, predicate %s)' % (piece[:160], pred))
     check_support(facts, rep)
 
 
